@@ -58,11 +58,16 @@ DIRECTED = {'req': ['writeRegisters', 'writeCoils', 'readWrite', 'writeFileRecor
             'resp': ['readDeviceInfo', 'readHolding', 'readFifo', 'readCoils', 'getCommEventLog', 'reportSlaveId', 'writeFileRecord', 'readFifo', 'exception']}
 
 
-def directed_stream(rng, name, direction):
-    """one frame of every variable-length class (the RTU length oracle has a rule of its own for each)"""
+def directed_stream(rng, name, direction, last=None):
+    """one frame of every variable-length class (the RTU length oracle has a rule of its own for each); `last`: the class
+    whose frame ends the stream (nothing arrives behind the last frame: a receiver that needs later bytes to notice that
+    it is complete never delivers it)"""
     gen = msggen.gen_req if direction == 'req' else msggen.gen_resp
     uid, frames, msgs = 1, [], []
-    for t in DIRECTED[direction]:
+    order = list(DIRECTED[direction])
+    if last is not None:
+        order = [t for t in order if t != last][:3] + [last]
+    for t in order:
         for _ in range(30):
             m = gen(rng, t)
             if t == 'readDeviceInfo' and (not m['information'] or m['number_of_objects'] != len(m['information'])):
@@ -169,6 +174,11 @@ def run(ctx):
             s = directed_stream(rng, name, direction)
             if s[1]:
                 check_streams(ctx, rep, name, direction, [s])
+            # every variable-length class in turn as the LAST frame of a short stream
+            for t in sorted(set(DIRECTED[direction])):
+                s = directed_stream(rng, name, direction, last=t)
+                if s[1]:
+                    check_streams(ctx, rep, name, direction, [s])
     # the largest legal frames, two per stream
     for name in framelib.STREAM_FRAMERS:
         for direction in ('req', 'resp'):
